@@ -8,10 +8,11 @@
    GameSpy 3 is proved as well (c04_gs3_decoded_completely: handshake, data
    request, all packets in the order sent, all variables, all players over any
    number of packets, re-sent names, teams; other arrival orders are C08).  For GameSpy 1 the '\key\value' grammar
-   is decoded exactly, pair by pair and in order; the rest is checked by
+   is decoded exactly, pair by pair and in order, and the multi-part assembly of query_vars is proved
+   (c04_gs1_vars_assembled); the typed response built from the variables is checked by
    evaluation on generated states in the correspondence run (Examples here). *)
 From GD Require Import Base.Prelude Model.Strings Model.StrOps Model.Buffer Model.Net Model.Valve Model.Gamespy.
-From GD Require Import Spec.Rand Spec.ValveSpec Spec.QuakeSpec Spec.GamespySpec Proofs.Str Proofs.GamespyProofs Proofs.Gamespy2Roundtrip Proofs.Jc2mRoundtrip Proofs.Gamespy3Roundtrip Proofs.Gamespy3Reply Proofs.Gamespy3Query.
+From GD Require Import Spec.Rand Spec.ValveSpec Spec.QuakeSpec Spec.GamespySpec Proofs.Str Proofs.GamespyProofs Proofs.Gamespy2Roundtrip Proofs.Jc2mRoundtrip Proofs.Gamespy3Roundtrip Proofs.Gamespy3Reply Proofs.Gamespy3Query Proofs.Gamespy1Assembly.
 
 Theorem c04_gs1_pairs_partial : forall k v l m,
   Forall (fun kv => no_delim 92 (fst kv) /\ no_delim 92 (snd kv)) ((k, v) :: l) ->
@@ -26,6 +27,31 @@ Theorem c04_gs3_request_carries_challenge_partial : forall port c n,
                  ++ match c with Some z => be_bytes 4 (of_signed 32 z) | None => [] end ++ [255; 255; 255; 1]) :: rest.
 Proof. exact gs3_request_bytes. Qed.
 Print Assumptions c04_gs3_request_carries_challenge_partial.
+
+(* GameSpy 1, the whole exchange of query_vars: the variables are cut into parts at any pair boundary, every part is
+   labelled '\queryid\<id>.<n>', the last one carries '\final\' before or after its label; received in the order sent,
+   the parts are assembled into exactly the variables sent, in order (side conditions of the transport: each part within
+   the 1024-byte receive).  pair_ok: texts are valid UTF-8 without NUL and without a backslash, no variable is called
+   'final' or 'queryid' *)
+Theorem c04_pair_ok_means : forall kv,
+  pair_ok kv <-> (no_nul (fst kv) = true /\ no_nul (snd kv) = true /\ ~ In 92 (fst kv) /\ ~ In 92 (snd kv)
+                  /\ fst kv <> str "final" /\ fst kv <> str "queryid").
+Proof. intros; reflexivity. Qed.
+Print Assumptions c04_pair_ok_means.
+Theorem c04_gs1_vars_assembled : forall port s,
+  Forall pair_ok (s1_vars s) -> s1_qid s <= 18446744073709551615 ->
+  Forall (fun d => (length d <= 1024)%nat) (s1_script s) -> N.of_nat (length (s1_script s)) < 4294967296 ->
+  fst (gs1_query_vars port None (script_net (s1_script s))) = Ok (fold_left ins (s1_vars s) []).
+Proof. exact gs1_vars_roundtrip. Qed.
+Print Assumptions c04_gs1_vars_assembled.
+(* a test: generated states meet the hypotheses and have several parts *)
+Example c04_ex_gs1_assembly_hyps :
+  existsb (fun seed => let s := fst (gen_s1 seed) in
+             forallb (fun kv => no_nul (fst kv) && no_nul (snd kv) && negb (existsb (N.eqb 92) (fst kv)) && negb (existsb (N.eqb 92) (snd kv))
+                                && negb (bytes_eqb (fst kv) (str "final")) && negb (bytes_eqb (fst kv) (str "queryid"))) (s1_vars s)
+             && forallb (fun d => (length d <=? 1024)%nat) (s1_script s) && (2 <=? length (s1_script s))%nat)
+          [1; 2; 3; 4; 5; 6; 7; 8] = true.
+Proof. vm_compute. reflexivity. Qed.
 
 (* ---- GameSpy 2, the full statement ----
    wf_s2: texts are valid UTF-8 without NUL, numbers fit their Rust types (maxplayers, numplayers,
